@@ -16,6 +16,9 @@ def main(tier):
     mods = cc.gen_modules(rng, n_mod, PROFILE)
     # deeper / longer programs as a second stream
     mods += cc.gen_modules(rng, n_mod // 3, dict(max_depth=4, max_len=5, n_funcs=2))
+    # small-scope exhaustion: every legal body with <= 2 (thorough: 3) statement nodes, plain and wrapped in a loop with else
+    small = pygen.modules_from_bodies(pygen.enum_function_bodies(3 if thorough else 2))
+    mods += small
     d = lib.fresh_dir("c01")
     cc.write_modules(mods, d)
     oracles = cc.gen_oracles(rng, n_orc)
